@@ -681,6 +681,33 @@ def r11_8(ctx):
                     ctx.violation(rid, inst, f.where(c), "`%s` is classified with `%s`, but its policy in %s is `%s`: when the two policies differ (operands of different types, or one native and one extended) its NaN / infinity encodings are read with the wrong rules" % (an, t, f.name, exp[an]))
     ctx.count(rid, "results fed back as operands (not judged)", fed_back)
     ctx.floor(rid, n, 600, "explicit policy / parameter pairings")
+    # (b) the free functions of Checked_Number_inlines.hh on native or checked operands: the policy is named as
+    # Native_Checked_{To,From}_Wrapper<T>::Policy and the operand as raw_value(p): T is the declared type of p.
+    wrap = re.compile(r"Native_Checked_(?:To|From)_Wrapper<\s*([A-Za-z0-9_]+)\s*>")
+    seen = set()
+    m = 0
+    for f in fx.functions:
+        if not f.flag("pattern") or "Checked_Number_inlines" not in f.file or (f.relfile, f.line) in seen:
+            continue
+        seen.add((f.relfile, f.line))
+        ptypes = {p["n"]: re.sub(r"\bconst\b|&|\s", "", p["t"]) for p in f.params}
+        for c in f.calls():
+            ta = c.get("targs") or []
+            args = f.call_args(c)
+            for i, t in enumerate(ta):
+                w = wrap.search(t)
+                if not w or i >= len(args):
+                    continue
+                pm = re.match(r"^raw_value\((\w+)\)$", f.text(f.deref(args[i])).replace(" ", ""))
+                if not pm or pm.group(1) not in ptypes:
+                    continue
+                m += 1
+                inst = "%s: %s<..%s..>(..raw_value(%s)..) (line %s)" % (f.name, f.call_name(c), w.group(0), pm.group(1), c.get("l"))
+                if ptypes[pm.group(1)] == w.group(1):
+                    ctx.ok(rid, inst, f.where(c))
+                else:
+                    ctx.violation(rid, inst, f.where(c), "`%s` has type `%s` but is passed with the policy of `%s`" % (pm.group(1), ptypes[pm.group(1)], w.group(1)))
+    ctx.floor(rid, m, 90, "wrapper policy / operand pairings")
 
 
 # ---- R11.9: the extended arithmetic on the classes {NaN, -inf, negative, zero, positive, +inf} -----------------------
